@@ -2261,10 +2261,16 @@ class StridedInterval:
 
     @normalize_types
     def concat(self, b: StridedInterval) -> StridedInterval:
-        # Zero-extend (an operand that wraps past zero has to be split for that, see zero_extend)
-        a = self.nameless_copy().zero_extend(self.bits + b.bits)
-
-        new_si = a.lshift(b.bits)
+        # The high part, moved to its place: multiplying by 2**b.bits maps the circle of self.bits bits onto every
+        # 2**b.bits-th point of the wider one, so bounds and stride are shifted as they are - also for an interval
+        # that wraps past zero, whose wrap-around becomes the wrap-around of the result
+        new_si = StridedInterval(
+            bits=self.bits + b.bits,
+            stride=self.stride << b.bits,
+            lower_bound=self.lower_bound << b.bits,
+            upper_bound=self.upper_bound << b.bits,
+            uninitialized=self.uninitialized,
+        )
         # Zero-extend b
         new_b = b.zero_extend(new_si.bits)
 
